@@ -354,7 +354,7 @@ def describe(code, fn, r):
         "try_dishonest": "try_lock returned None although nobody held the mutex during the call (or: the quiescent lock could not be taken after the run although no guard is outstanding)",
         "try_blocks": "%s called FUTEX_WAIT" % fn,
         "lost_wakeup": "run ended with thread(s) %s parked in FUTEX_WAIT inside %s, every other thread finished and no guard outstanding" % (r["end"]["blocked"], fn),
-        "deadlock_with_holder": "run ended with parked threads",
+        "deadlock_with_holder": "run ended with thread(s) %s inside %s that never returned while a holder that would release exists (real futex, SCHED_FIFO on one cpu: the waiter never parks and starves the holder; or all parked)" % (r["end"]["blocked"], fn),
         "panic": "a lock operation panicked: %s" % next((e.get("msg") for e in r["events"] if e["ev"] == "panic"), ""),
         "unbounded_spin": "%s re-reads the unchanged lock word >= 4096 times in a row without ever parking (a holder that is not scheduled meanwhile is starved: SCHED_FIFO on one CPU never returns)" % fn,
         "data_lost": "get_mut / into_inner on the quiescent lock do not deliver the value the write accesses left",
@@ -1156,8 +1156,34 @@ class LockCheck:
         """Runs of probe/syncp (one process per scenario) as judge-able executions."""
         d = core.cargo_build(template="probe/syncp", bins=["syncprobe"], release=release)
         runs = []
+        import subprocess
+        fifo_state = None
         for sc in scenarios:
-            p = core.run_cmd([os.path.join(d, "syncprobe"), sc], timeout=60, check=False)
+            fifo = sc.endswith("@fifo")
+            if fifo:
+                # SCHED_FIFO on ONE cpu: a running thread keeps the cpu until it blocks.  A waiter that
+                # parks lets the holder run and release; a waiter that spins for ever starves it.
+                cmd = ["chrt", "-f", "10", "taskset", "-c", str((os.cpu_count() or 1) - 1), os.path.join(d, "syncprobe"), sc[:-5]]
+                pr = subprocess.Popen(cmd, stdout=subprocess.PIPE, stderr=subprocess.PIPE, text=True)
+                try:
+                    out, err = pr.communicate(timeout=6)
+                    timed_out = False
+                except subprocess.TimeoutExpired:
+                    pr.kill()
+                    out, err = pr.communicate()
+                    timed_out = True
+                if not out.strip():
+                    fifo_state = "not exercised: the launcher could not start the probe (rc=%s) %s" % (pr.returncode, err[-200:])
+                    continue
+                fifo_state = "exercised"
+
+                class _P:
+                    pass
+                p = _P()
+                p.stdout, p.stderr, p.returncode = out, err, (0 if timed_out else pr.returncode)
+            else:
+                timed_out = False
+                p = core.run_cmd([os.path.join(d, "syncprobe"), sc], timeout=60, check=False)
             evs = []
             for line in p.stdout.splitlines():
                 try:
@@ -1168,13 +1194,22 @@ class LockCheck:
             end = [e for e in evs if e["ev"] == "end"]
             if p.returncode in (2, 3):
                 raise core.ToolError("syncprobe %s could not run (rc=%s): %s" % (sc, p.returncode, p.stderr[-500:]))
+            if timed_out and not end:
+                # killed after 6 s: who is inside a blocking acquisition that has not returned?
+                inside = {}
+                for e in evs:
+                    if e["ev"] == "call" and e["fn"] in ("lock", "read", "write"):
+                        inside[e["t"]] = True
+                    elif e["ev"] == "ret" and e["fn"] in ("lock", "read", "write"):
+                        inside.pop(e["t"], None)
+                end = [{"ev": "end", "blocked": sorted(inside), "done": [], "cut": False, "starved_holder": True}]
             if not end:
                 # the process died (signal / abort) before its end event: data, not a tool error
                 evs.append({"ev": "panic", "t": 0, "msg": "probe process ended with status %s before its end event" % p.returncode})
                 end = [{"ev": "end", "blocked": [], "done": [], "cut": False}]
             runs.append({"reset": {"ev": "reset", "run": len(runs), "kind": self.lock, "progs": [["probe:" + sc]]},
                          "events": [e for e in evs if e["ev"] != "end"], "end": dict(end[0], sched=[]), "probe": sc})
-        chk.extra["no_libc_probe"] = {"scenarios": list(scenarios), "runs": len(runs)}
+        chk.extra["no_libc_probe"] = {"scenarios": list(scenarios), "runs": len(runs), "sched_fifo_one_cpu": fifo_state}
         core.log("no-libc probe: %d scenarios run" % len(runs))
         return runs
 
